@@ -2191,15 +2191,44 @@ func (s *swamp) SaveFunction(t treasure.Treasure, guardID guard.ID) treasure.Tre
 			if t.GetContentType() != treasure.ContentTypeVoid {
 				s.addTreasureToBeacons(t)
 			}
-		} else if t.IsExpirationTimeChanged() {
-			// ExpirationTime moved (e.g. via PatchTreasures meta). Refresh
-			// only the expiration-time beacon: drop the stale entry and
-			// re-add it under the new sort key — unless the new value is 0
-			// ("never expires"), in which case leave it removed.
-			s.deleteTreasureIfBeaconInitialized(s.expirationTimeBeaconASC, t.GetKey())
-			s.deleteTreasureIfBeaconInitialized(s.expirationTimeBeaconDESC, t.GetKey())
-			if t.GetExpirationTime() != 0 {
-				s.addToExpirationTimeBeacon(t)
+		} else {
+			// The content type is unchanged, so the treasure stays in the
+			// beacons it is already part of, but every sort attribute that
+			// moved must re-position it in the matching (already built)
+			// beacon. Each attribute is handled on its own, because more than
+			// one of them can change within a single Save.
+			if t.IsExpirationTimeChanged() {
+				// ExpirationTime moved (e.g. via PatchTreasures meta). Refresh
+				// only the expiration-time beacon: drop the stale entry and
+				// re-add it under the new sort key — unless the new value is 0
+				// ("never expires"), in which case leave it removed.
+				s.deleteTreasureIfBeaconInitialized(s.expirationTimeBeaconASC, t.GetKey())
+				s.deleteTreasureIfBeaconInitialized(s.expirationTimeBeaconDESC, t.GetKey())
+				if t.GetExpirationTime() != 0 {
+					s.addToExpirationTimeBeacon(t)
+				}
+			}
+			if t.IsContentChanged() {
+				// same content type, new value: re-sort the value beacons
+				// (no-op while they are not built). Add is a no-op for a key
+				// that is already indexed, so this only re-sorts.
+				s.addToValueBeacon(t)
+			}
+			if t.IsModifiedAtChanged() {
+				// mirrors addTreasureToBeacons: ModifiedAt == 0 is not indexed
+				s.deleteTreasureIfBeaconInitialized(s.updateTimeBeaconASC, t.GetKey())
+				s.deleteTreasureIfBeaconInitialized(s.updateTimeBeaconDESC, t.GetKey())
+				if t.GetModifiedAt() != 0 {
+					s.addToUpdateTimeBeacon(t)
+				}
+			}
+			if t.IsCreatedAtChanged() {
+				// mirrors addTreasureToBeacons: CreatedAt == 0 is not indexed
+				s.deleteTreasureIfBeaconInitialized(s.creationTimeBeaconASC, t.GetKey())
+				s.deleteTreasureIfBeaconInitialized(s.creationTimeBeaconDESC, t.GetKey())
+				if t.GetCreatedAt() != 0 {
+					s.addToCreationTimeBeacon(t)
+				}
 			}
 		}
 
